@@ -53,18 +53,21 @@ def l2(quick, thorough, qflags, tflags, reach=()):
     return {"pkg": T, "harness": ["harness/taskctl"], "entry": "VerifL2Schedule", "replay": "l2", "quick": quick, "thorough": thorough,
             "quick_flags": qflags, "thorough_flags": tflags, "reach": list(reach)}
 
+L2RUN3 = l2({"stages": 3}, {"stages": 3}, {"preempt": 0}, {"preempt": 0}, reach=["schedule.nil", "schedule.canceled", "dependent-skipped", "end"])
 L2RUN = l2({"stages": 2}, {"stages": 3}, {"preempt": 2}, {"preempt": 1}, reach=["schedule.nil", "schedule.canceled", "run.canceled-in-flight", "run.refused-after-cancel", "run.after-allowed-failure", "dependent-skipped", "end"])
 
 CHECKS = {
     "C01": {"prefixes": ["C01."], "assumptions": L3_ASSUME, "validate_samples": {"quick": 1, "thorough": 3},
             "runs": [bmc({"K": 4, "N": 4}, {"K": 5, "N": 4}, reach=["spawn.concurrent>1", "end"]), bmcB(reach=["end"])]},
     "C02": {"prefixes": ["C02."], "assumptions": L3_ASSUME + L2_ASSUME, "validate_samples": {"quick": 1, "thorough": 3},
-            "runs": [bmc({"K": 4, "N": 4}, {"K": 5, "N": 4}, reach=["end"]), L2RUN]},
+            "runs": [bmc({"K": 4, "N": 4}, {"K": 5, "N": 4}, reach=["end"]), L2RUN, L2RUN3,
+                     step("VerifC02Graph", {"tasks": 3}, {"tasks": 3}, reach=["cyclic", "acyclic", "fan-in"]),
+                     step("VerifC02Graph", {"tasks": 4, "dagonly": 1, "permutemode": 1, "concretenames": 1}, {"tasks": 5, "dagonly": 1, "permutemode": 1, "concretenames": 1}, reach=["acyclic", "fan-in"])]},
     "C03": {"prefixes": ["C03."], "assumptions": L3_ASSUME, "validate_samples": {"quick": 1, "thorough": 3},
             "runs": [bmc({"K": 4, "N": 4}, {"K": 5, "N": 4}, reach=["state.waiting", "cancel.waiting"]), bmcB(reach=["state.three-waiting"]),
                      bmc({"K": 4, "N": 3, "reloads": 1, "reservedvar": 0, "taskerr": 0}, {"K": 5, "N": 3, "reloads": 1, "taskerr": 0}, reach=["reload"])]},
     "C04": {"prefixes": ["C04."], "assumptions": L3_ASSUME + L2_ASSUME, "validate_samples": {"quick": 1, "thorough": 3},
-            "runs": [bmc({"K": 4, "N": 4}, {"K": 5, "N": 4}, reach=["cancel.waiting", "cancel.running", "cancel.already-canceled", "cancel.completed"]), L2RUN]},
+            "runs": [bmc({"K": 4, "N": 4}, {"K": 5, "N": 4}, reach=["cancel.waiting", "cancel.running", "cancel.already-canceled", "cancel.completed"]), L2RUN, L2RUN3]},
     "C05": {"prefixes": ["C05."], "assumptions": L3_ASSUME, "validate_samples": {"quick": 1, "thorough": 3},
             "runs": [bmc({"K": 4, "N": 4}, {"K": 5, "N": 4}, reach=["sched.start", "sched.append", "sched.replace", "sched.reject-full", "sched.reject-noqueue"]), bmcB(reach=["sched.replace"])]},
     "C06": {"prefixes": ["C06."], "assumptions": L3_ASSUME, "validate_samples": {"quick": 1, "thorough": 3},
@@ -72,7 +75,8 @@ CHECKS = {
     "C07": {"prefixes": ["C07."], "assumptions": L3_ASSUME, "validate_samples": {"quick": 1, "thorough": 3},
             "runs": [bmc({"K": 4, "N": 4}, {"K": 5, "N": 4}, reach=["sched.delayed", "spawn.delayed-job", "sched.replace"]), bmcB(reach=["spawn.delayed-job", "sched.replace"])]},
     "C15": {"prefixes": ["C15."], "assumptions": L3_ASSUME, "validate_samples": {"quick": 1, "thorough": 3},
-            "runs": [bmc({"K": 4, "N": 4}, {"K": 5, "N": 4}, reach=["end"])]},
+            "runs": [bmc({"K": 4, "N": 4}, {"K": 5, "N": 4}, reach=["end"]),
+                     step("VerifC02Graph", {"tasks": 2}, {"tasks": 3}, reach=["cyclic", "acyclic"])]},
     "C16": {"prefixes": ["C16."], "assumptions": L3_ASSUME, "validate_samples": {"quick": 1, "thorough": 3},
             "runs": [bmc({"K": 4, "N": 3, "reloads": 1, "reservedvar": 0, "taskerr": 0}, {"K": 5, "N": 3, "reloads": 1, "taskerr": 0}, reach=["reload"])]},
     "C17": {"prefixes": ["C17."],
@@ -107,7 +111,7 @@ CHECKS = {
                             "state: built through the public API (finished, running and waiting jobs, retention configured); one operation per path"],
             "runs": [step("VerifC13Locks", reach=["op-done"])]},
     "C08": {"prefixes": ["C08."], "assumptions": L3_ASSUME + L2_ASSUME, "validate_samples": {"quick": 1, "thorough": 2},
-            "runs": [L2RUN, bmc({"K": 4, "N": 3, "reservedvar": 0}, {"K": 5, "N": 3, "reservedvar": 0}, reach=["taskerr.failfast"])]},
+            "runs": [L2RUN, L2RUN3, bmc({"K": 4, "N": 3, "reservedvar": 0}, {"K": 5, "N": 3, "reservedvar": 0}, reach=["taskerr.failfast"])]},
     "C09": {"prefixes": ["C09."],
             "assumptions": ["file-system contract: CreateTemp/Write/Close/Rename/Open are atomic operations; Rename atomically replaces; a write may be short; every OS call may fail (symbolic fault schedule)",
                             "the JSON codec is a stub: Encode writes an opaque encoding of the snapshot in 1..chunks writes, Decode succeeds iff the file holds exactly one complete encoding",
@@ -122,4 +126,33 @@ CHECKS = {
                       "flags": {"init": "github.com/go-chi/chi/v5", "loop-cap": 5000}, "reach": ["profiling-on", "profiling-off", "six-api-routes"]},
                      {"pkg": "github.com/Flowpack/prunner/config", "harness": ["harness/config"], "entry": "VerifC14Config", "quick": {}, "thorough": {}, "reach": ["accepted", "rejected"], "replay": "harness"},
                      {"pkg": "github.com/Flowpack/prunner/app", "harness": ["harness/app"], "entry": "VerifC14App", "quick": {}, "thorough": {}, "reach": ["checked"]}]},
+    "C11": {"prefixes": ["C11."],
+            "assumptions": L3_ASSUME + [
+                "after a symbolic prefix of L3 events the pending activities become threads (scheduler goroutines that end on their own when scheduled or with context.Canceled once the stop was delivered; stop-delivery goroutines; in thorough a racing ScheduleAsync client); Shutdown runs on the harness thread; the forced variant cancels ctx from another thread at an arbitrary switch point",
+                "time.After(poll interval) fires once something changed since it was armed (idle-iteration elision); the persist loop and pending start timers are not threads in the registered bounds",
+                "the store is a recording stub; 'store equals final state' compares flags and start/end presence per job"],
+            "runs": [step("VerifC11Shutdown", {"K": 2, "N": 2, "racer": 0}, {"K": 2, "N": 2, "racer": 1}, reach=["shutdown.graceful", "shutdown.forced", "shutdown.with-running-job", "shutdown.with-waiting-job", "end"],
+                          flags={"preempt": 0, "workers": 8})]},
+    "C18": {"prefixes": ["C18."],
+            "assumptions": ["contract-level: checked up to the exec boundary - the list handed to expand.ListEnviron (later entries override earlier ones: mvdan/sh contract), the variables handed to the template renderer, the command text; the shell interpreter, text/template and exec are not executed",
+                            "stubs: os.Environ (symbolic process environment), os.Getwd, interp.New/Run, expand.ListEnviron, syntax.Parser.Parse, utils.RenderString (identity on strings without template actions), reflect.ValueOf(x).Kind()",
+                            "one symbolic variable name (no '=' in it, not TASK_NAME) that may be defined at each of the three levels, symbolic values, symbolic task name and job variable value; two commands per task"],
+            "runs": [{"pkg": T, "harness": ["harness/taskctl"], "entry": "VerifC18Env", "quick": {}, "thorough": {}, "reach": ["defined-somewhere", "all-three-levels"]},
+                     step("VerifC18Reserved", reach=["reserved", "ordinary"], replay="harness"),
+                     bmc({"K": 3, "N": 3}, {"K": 4, "N": 4}, reach=["end"])]},
+    "C19": {"prefixes": ["C19."],
+            "assumptions": ["contract-level: decided up to the hand-over of writers/readers; that bytes written to an *os.File arrive completely and in order, under any volume and concurrency, is operating-system behaviour and is trusted",
+                            "stubs: shell interpreter (interp.New/StdIO/Run), parser, template renderer, os.Environ/Getwd; recording output store; HTTP plumbing of the log API (query parsing, JSON encoding) is stubbed, the handler and the runner are real",
+                            "path injectivity of FileOutputStore.buildPath (task names containing '/' or '..') is NOT covered: path.Clean works on bytes of symbolic strings, which the engine does not support"],
+            "runs": [{"pkg": T, "harness": ["harness/taskctl"], "entry": "VerifC19Writers", "quick": {}, "thorough": {}, "reach": ["ran", "open-failed"]},
+                     {"pkg": "github.com/Flowpack/prunner/server", "harness": ["harness/server"], "entry": "VerifC19Logs", "quick": {}, "thorough": {},
+                      "reach": ["own-task", "foreign-task", "unknown-job", "malformed-id", "empty-task"]}]},
+    "C20": {"prefixes": ["C20."],
+            "assumptions": ["contract-level against a process-group model: Start creates a group led by the child iff Setpgid; a signal to -pgid reaches every member, to +pid only the child; SIGKILL cannot be ignored, SIGINT can; members may exit on their own at any time; Wait returns when the child is dead",
+                            "the kernel (signal delivery, reaping, pid reuse), os/exec and real timing are not executed; time.Sleep(killTimeout) ends at an arbitrary later point",
+                            "a stale watcher goroutine signalling a recycled pid after the command ended (pid reuse) is outside the model",
+                            "group of <= 3 members, every ignore/exit combination, context canceled at any switch point or never, killTimeout any int64"],
+            "runs": [{"pkg": T, "harness": ["harness/taskctl"], "entry": "VerifC20Exec", "quick": {}, "thorough": {}, "quick_flags": {"preempt": 0}, "thorough_flags": {"preempt": 1},
+                      "reach": ["canceled-while-running", "interrupt-ignoring-process-killed", "ran-to-its-natural-end", "with-descendants"]},
+                     {"pkg": T, "harness": ["harness/taskctl"], "entry": "VerifC20Cancel", "quick": {}, "thorough": {}, "flags": {"preempt": 2}, "reach": ["end"]}]},
 }
